@@ -493,7 +493,7 @@ func execute(c Case) vkit.Result {
 	if c.Expect == "closed" && !rs.Closed {
 		return vkit.Failf("client input (%s): a packet declaring more than the configured message size was not refused (connection still open)", c.Note)
 	}
-	if bound := uint64(allocPerByte*len(c.Data) + allocSlack); rs.Alloc > bound {
+	if bound := uint64(allocPerByte*len(c.Data) + allocSlack); rs.Alloc > bound && c.Kind != "clients" {
 		r := vkit.Failf("%s input of %d bytes (%s) made the broker allocate %d bytes (bound %d)", c.Kind, len(c.Data), c.Note, rs.Alloc, bound)
 		if c.Kind != "client" {
 			r.Finding = "C09-cluster-length-prefix"
@@ -507,7 +507,10 @@ func execute(c Case) vkit.Result {
 		labels = append(labels, "oversize-refused")
 	}
 	nontrivial := len(c.Data) > 2
-	if c.Kind != "client" {
+	if c.Kind == "clients" {
+		nontrivial = true
+		labels = append(labels, "concurrent-well-formed-clients")
+	} else if c.Kind != "client" {
 		nontrivial = strings.Contains(rs.Ret, "err=<nil>") || strings.Contains(rs.Ret, "ok=true")
 		if nontrivial {
 			labels = append(labels, "payload-decoded")
@@ -643,9 +646,21 @@ func stop() {
 	}
 }
 
-func TestClientPort(t *testing.T)     { vkit.Check(t, genClient, execute); stop() }
-func TestClusterBenign(t *testing.T)  { vkit.Check(t, genCluster(false), execute); stop() }
-func TestClusterHostile(t *testing.T) { vkit.Check(t, genCluster(true), execute); stop() }
+// genClients: several well-formed clients at once - plain, wildcard and share-group subscribers of the channels
+// they all publish to. Nothing they send is hostile; the broker must simply survive the concurrency.
+func genClients(t *rapid.T) Case {
+	sp := ClientsSpec{Clients: rapid.IntRange(2, 8).Draw(t, "clients"), Msgs: rapid.SampledFrom([]int{20, 100, 300}).Draw(t, "msgs"), Size: rapid.SampledFrom([]int{0, 10, 2000}).Draw(t, "size")}
+	for i, n := 0, rapid.IntRange(1, 4).Draw(t, "nfilters"); i < n; i++ {
+		sp.Filters = append(sp.Filters, rapid.SampledFrom([]string{"NS/x0/", "NS/", "NS/+/", "$share/g1/NS/x0/", "$share/g1/NS/", "$share/g2/NS/x1/", "$share/g2/NS/+/"}).Draw(t, "filter"))
+	}
+	d, _ := json.Marshal(sp)
+	return Case{Kind: "clients", Data: d, Note: fmt.Sprintf("%d concurrent well-formed clients, filters %v, %d publishes each", sp.Clients, sp.Filters, sp.Msgs), Benign: true}
+}
+
+func TestClientPort(t *testing.T)        { vkit.Check(t, genClient, execute); stop() }
+func TestConcurrentClients(t *testing.T) { vkit.Check(t, genClients, execute); stop() }
+func TestClusterBenign(t *testing.T)     { vkit.Check(t, genCluster(false), execute); stop() }
+func TestClusterHostile(t *testing.T)    { vkit.Check(t, genCluster(true), execute); stop() }
 
 // TestProbes replays one saved minimal input per listed finding, so that each KNOWN-FINDING line is printed exactly
 // while the defect is still there.
